@@ -155,6 +155,8 @@ def run_brew_case(c, d, want_result=False):
         if isinstance(e, RuntimeError) and ("Failed to calibrate scores" in str(e) or "No PSMs accepted at train_fdr" in str(e)
                                             or "No PSMs found below" in str(e)):
             res = ("loud", msg, [])
+        elif isinstance(e, ValueError) and ("No decoy PSMs were" in str(e) or "No target PSMs were" in str(e)):
+            res = ("loud", msg, [])         # a training set without decoys / targets is refused by design
         else:
             frames_tb = [f.name for f in traceback.extract_tb(e.__traceback__)]
             if c.get("direction") and any(frames_tb[i:i + 2] == ["brew", "read_data"] for i in range(len(frames_tb))):
@@ -346,6 +348,17 @@ def run_direction_case(c, d):
             return "skip", []
         dss, frames, scores, descs = result
         dss = datasets(c, frames, d)        # fresh dataset objects (brew consumed the spectra table)
+    for fr, sc in zip(frames, scores):      # degenerate for confidence estimation: the retained PSMs may hold only
+        tg = is_target_col(fr["Label"])     # targets or only decoys (the PEP step then exits or fails: C06 matter)
+        sv = np.asarray(sc, dtype=float).ravel()
+        for dsc in (True, False):
+            key, best = expected_confidence(fr, sv, dsc)
+            cand = {}
+            for p in range(len(sv)):
+                if sv[p] == best[key[p]]:
+                    cand.setdefault(key[p], set()).add(bool(tg[p]))
+            if any(all(lab in v for v in cand.values()) for lab in (True, False)):   # some tie-break keeps one class only
+                return "skip", []
     try:
         outs = run_confidence(dss, frames, scores, list(descs), d, "conf")
     except SystemExit:      # triqler's qvality exits when the retained PSMs hold no target (or no decoy): PEP matter (C06)
